@@ -90,6 +90,10 @@ class If(Expr):
         if self.elseBranch is None:
             # if there is only a thenBranch, it must evaluate to TealType.none
             require_type(self.thenBranch, TealType.none)
+        else:
+            # both branches must leave the same thing on the stack; for a chain built with
+            # ElseIf this is the only place where the nested If is compared with this branch
+            require_type(self.elseBranch, self.thenBranch.type_of())
 
         return self.thenBranch.type_of()
 
